@@ -645,6 +645,23 @@ func c06Gen(g *G) {
 		c = hsRandomCase(r, next())
 		g.Emit(c06HistOp("hist:fail2,x-first", "fail2,x", "nil+buffered+pingdelay/"+c06BytesFor(r, 64), c), "honest", "history", "first-request")
 	}
+	// an exchange given up at its LAST step (the client had computed and installed its key), then - on the same object -
+	// an exchange whose g^ab has leading zero bytes: what the first one left in the client (a kept key buffer: seed
+	// C06-m18) must not reach the second. Every corner with every kind of earlier failure
+	for _, z := range []int{1, 2} {
+		for _, h := range []string{"fail3,x", "fail3,disc,x", "fail2,x", "fail3,fail3,x", "fail1,fail3,x"} {
+			for _, field := range []string{"g_ab", "new_nonce_hash1"} {
+				if z == 2 && (field != "g_ab" || h != "fail3,x") && !g.Thorough() {
+					continue
+				}
+				c := hsRandomCase(r, next())
+				if !c06ForceCorner(r, c, field, z) {
+					continue
+				}
+				g.Emit(c06HistOp(fmt.Sprintf("hist:%s-%s-lz%d", h, field, z), h, "notfound+buffered+ping", c), "honest", "history", "history-then-corner", "corner="+field)
+			}
+		}
+	}
 	// (a0) first of all, sequences in one operation: other keys one after another, the caller's key object kept
 	// or not, and the three ways a session storage says "nothing stored"
 	for i, ko := range hsKeyObjModes {
